@@ -364,5 +364,55 @@ def run_shard(spec):
                                  "what": "a real block-smooth convex quadratic with real coordinate-block projections violates the "
                                          "generated constraint '%s' by %.3e (terms of size %.3g); events %s" % (name_, v_, mag_, kinds)})
                 break
+    # ... and block by block for real: a convex quadratic that is TOO STEEP on one block only (lambda_max(Q_kk) = 1.7 L_k,
+    # the other blocks within their constants), sampled at two points that differ along that block: its samples are not
+    # those of any function of the class, some generated constraint has to reject them
+    for i in range(spec["n"] // 4 if "replay" not in spec else 0):
+        sd = "c15bsrej/%d/%d/%d" % (spec["seed"], spec["shard"], i)
+        rng = random.Random(sd)
+        d = rng.choice([2, 2, 3])
+        Ls = [rng.choice([1.0, 2.0, 0.5, 10.0]) for _ in range(d)]
+        if rng.random() < 0.4:
+            Ls = [rng.choice([1, 2, 4, 10]) for _ in range(d)]
+        params = {"L": Ls}
+        try:
+            with contextlib.redirect_stdout(io.StringIO()):
+                s_ = c03.Session("BlockSmoothConvexFunction", params, rng)
+                k = rng.randrange(d)
+                idx = [np.array(b, dtype=int) for b in s_.blocks]
+                # block-diagonal member: every block at half its constant, block k at 1.7 times its constant
+                Q = np.zeros((s_.dim, s_.dim))
+                for j, b in enumerate(idx):
+                    Bm = np.array([[rng.gauss(0, 1) for _ in b] for _ in b])
+                    Qb = Bm.T @ Bm + 1e-3 * np.eye(len(b))
+                    Qb *= (1.7 if j == k else 0.5) * float(Ls[j]) / np.linalg.eigvalsh(Qb).max()
+                    Q[np.ix_(b, b)] = Qb
+                s_.member.Q = Q
+                w, V = np.linalg.eigh(Q[np.ix_(idx[k], idx[k])])
+                delta = np.zeros(s_.dim)
+                delta[idx[k]] = V[:, -1] * rng.choice([1.0, 0.3, 3.0])
+                xa = s_.member.domain_point(rng, 1.0)
+                pa, pb = s_.new_point(xa), s_.new_point(xa + delta)
+                s_.oracle(pa), s_.oracle(pb)
+                for _ in range(rng.randint(0, 2)):
+                    s_.oracle(s_.new_point(s_.member.domain_point(rng, 1.0)))
+                s_.finish()
+                res = s_.evaluate()
+        except Exception as e:
+            counters["block_smooth_rejection_exceptions:" + type(e).__name__] = counters.get("block_smooth_rejection_exceptions:" + type(e).__name__, 0) + 1
+            continue
+        counters["block_smooth_non_members_presented"] = counters.get("block_smooth_non_members_presented", 0) + 1
+        # by hand: the documented condition for the pair (b, a) on block k fails by 0.35 lambda ||delta||^2, lambda = 1.7 L_k
+        expected = 0.35 * 1.7 * float(Ls[k]) * float(delta @ delta)
+        worst = max([v_ for k_, name_, v_, mag_ in res] + [0.0])
+        if worst >= 0.5 * expected:
+            counters["block_smooth_non_members_rejected"] = counters.get("block_smooth_non_members_rejected", 0) + 1
+        else:
+            key = "function_too_steep_on_one_block_accepted"
+            if not any(x["key"] == key for x in viol):
+                viol.append({"key": key, "rng": sd, "desc": {"params": params, "block": k},
+                             "what": "a convex quadratic with lambda_max = 1.7 L_k on block %d (L = %r), sampled at two points that differ "
+                                     "along that block, satisfies every generated constraint (largest violation %.3e, the documented "
+                                     "condition fails by %.3e): the function is not constrained on that block" % (k, Ls, worst, expected)})
     return {"counters": counters, "signatures": sorted(sigs), "samples": samples, "violations": viol,
             "extra": {"shard_wall_s": round(time.time() - t0, 1)}}
